@@ -460,6 +460,21 @@ def check_roundtrip(ctx, nss, cfgmod, n):
         c.title = s
         c.detector.name = s[::-1]
         cfgs.append(c)
+    # small magnitudes in the written unit (a target arc seconds from the equator, a detector metres above sea level, sub-arc-minute
+    # angles): the text form must carry the relative, not an absolute, precision
+    for k_, tiny in enumerate((1e-4, 2e-5, 6e-8, 5.7e-3, 3.3e-11, 1e-19)):
+        c = cfgmod.NssConfig()
+        c.title = f"small magnitudes {k_}"
+        c.detector.initial_position.latitude = float(np.radians(tiny * 1.2345678901234567))
+        c.detector.initial_position.longitude = float(-np.radians(tiny))
+        c.detector.initial_position.altitude = float(tiny * 3.3)
+        c.simulation.target.source_DEC = float(np.radians(tiny / 7.0))
+        c.simulation.target.source_RA = float(np.radians(tiny * 0.9))
+        c.simulation.max_cherenkov_angle = float(np.radians(tiny * 11.0))
+        c.simulation.angle_from_limb = float(np.radians(tiny * 13.0))
+        c.detector.optical.telescope_effective_area = float(tiny * 0.77)
+        c.detector.radio.gain = float(tiny * 1.9)
+        cfgs.append(c)
     raws = [floatify(raw_of(c)) for c in cfgs]
     lines = []
     for r in raws:
